@@ -33,6 +33,7 @@ static long n_cases = 0, n_calls = 0, n_nontrivial = 0, n_ties = 0, n_const = 0,
 static long hist[MAXC + 1];
 static int printed = 0, samples = 0;
 static long shard_i = 0, shard_n = 1;
+static int alarm_s = 20;
 
 static void print_case(const char *tag, const char *what, int nk, int nth, int ihmax, int shift, const float *z) {
   int i;
@@ -315,6 +316,8 @@ int main(int argc, char **argv) {
   {
     const char *e = getenv("DRV_SHARD");
     if (e && sscanf(e, "%ld/%ld", &shard_i, &shard_n) != 2) { shard_i = 0; shard_n = 1; }
+    e = getenv("DRV_ALARM");   /* watchdog period per 256 cases; raised by jobs whose single calls are slow (level counts in the millions) */
+    if (e && atoi(e) > 0) alarm_s = atoi(e);
   }
   s = 0;
   while (remaining > 0) {
@@ -323,7 +326,7 @@ int main(int argc, char **argv) {
     pos[s]++; remaining--;
     if (shard_n > 1 && ((pos[s] - 1) % shard_n) != shard_i) { if (inter) s = (s + 1) % nsh; continue; }
     fam_fill(fam, sk[s], st[s], pos[s] - 1, z);
-    if ((n_cases & 255) == 0) alarm(20);
+    if ((n_cases & 255) == 0) alarm(alarm_s);
     n_cases++;
     for (i = 0; i < nih; i++) {
       r = check_case(sk[s], st[s], ihm[i], z, shifts);
